@@ -5,5 +5,8 @@ cd /verif
 for p in $(python3 -c "import json;print(' '.join(c['property_id'] for c in json.load(open('MANIFEST.json'))['checks']))"); do
   out=$(./check.sh $p $tier 2>&1); rc=$?
   echo "$p rc=$rc $(echo "$out" | grep -E '^pscheck' | tail -1)"
-  [ $rc -ne 0 ] && echo "$out" | grep -E "violated|undecided|floor|self-audit|broken" | head -5
+  if [ $rc -ne 0 ]; then
+    echo "$out" | grep -E "violated|undecided|floor|self-audit|broken" | head -5
+    echo "$out" > /tmp/runall.$p.$tier.log; echo "  (full output: /tmp/runall.$p.$tier.log)"
+  fi
 done
